@@ -10,8 +10,9 @@ A port of what the Go code DOES:
 * `link` updates the cursor object (`ptr`, the caller's pointer) and, separately, the copy stored in the process,
   which it looks up with `FindBy(ExactId …)`: first hit of a scan over the process itself, then the flow
   elements in the order of the generated struct fields (`Kind.rank`), sequence flows included.
-* `AddActivity` stores the activity only for the ten types of its type switch (`Kind.stored`); any other
-  `ActivityInterface` (AdHocSubProcess, Transaction, Activity) is linked but NOT stored.
+* `AddActivity` stores the activity only for the types named in its type switch; any other `ActivityInterface`
+  is linked but NOT stored. WHICH types the switch names is a fact extracted from the source on every run
+  (`Bpmn.Gen.C19.addActivityStored`); the model takes it as the parameter `st : Kind → Bool` (`storedBy names`).
 * layout arithmetic: Go uses float64. Coordinates here are `Int` in units of 1/`scale`; on the configuration
   grid of the harness (all values multiples of 1/4, scale 8) every Go intermediate is exactly representable, `/ 2`
   is exact, and `math.Abs(a-b) < 0.001` is `|a-b| * 1000 < scale`. `desiredRow` (a float quotient of small
@@ -36,11 +37,17 @@ inductive Kind
   | adHocSubProcess | transaction | activity
 deriving DecidableEq, Repr
 
-/-- does the builder append a node of this kind to a field of the process
-(start/end events by their own code paths, activities by the type switch in `AddActivity`) -/
-def Kind.stored : Kind → Bool
-  | .adHocSubProcess | .transaction | .activity => false
-  | _ => true
+/-- Go type name of a kind -/
+def Kind.goName : Kind → String
+  | .task => "Task" | .businessRuleTask => "BusinessRuleTask" | .userTask => "UserTask"
+  | .callActivity => "CallActivity" | .manualTask => "ManualTask" | .sendTask => "SendTask"
+  | .scriptTask => "ScriptTask" | .serviceTask => "ServiceTask" | .receiveTask => "ReceiveTask"
+  | .subProcess => "SubProcess" | .adHocSubProcess => "AdHocSubProcess" | .transaction => "Transaction"
+  | .activity => "Activity" | .startEvent => "StartEvent" | .endEvent => "EndEvent"
+
+/-- the type switch of `AddActivity`, given the type names it lists: does it append an activity of this kind to
+a field of the process? (Start and end events never go through `AddActivity`; the builder stores them itself.) -/
+def storedBy (names : List String) : Kind → Bool := fun k => names.contains k.goName
 
 /-- position of the kind's field in `(*Process).FlowElements()` / `(*Process).FindBy` -/
 def Kind.rank : Kind → Nat
@@ -139,12 +146,12 @@ def link (o : Nat → Nat) (n : Nat) (b : PB) (id : Id) (kind : Kind) : PB × No
   ({ proc := { p1 with flows := p1.flows ++ [⟨sid, b.ptrId, id⟩] }, ptrId := id, ptrOut := [] }, node, n + 1)
 
 /-- `AddActivity(act)`; `preset = none` when the activity has no id (one more `RandBytes` call) -/
-def addActivity (o : Nat → Nat) (n : Nat) (b : PB) (kind : Kind) (preset : Option Nat) : PB × Nat :=
+def addActivity (st : Kind → Bool) (o : Nat → Nat) (n : Nat) (b : PB) (kind : Kind) (preset : Option Nat) : PB × Nat :=
   let (id, n1) := match preset with
     | some p => (Id.preset p, n)
     | none => (Id.gen .activity (o n), n + 1)
   let (b1, node, n2) := link o n1 b id kind
-  if kind.stored then ({ b1 with proc := { b1.proc with nodes := b1.proc.nodes ++ [node] } }, n2)
+  if st kind then ({ b1 with proc := { b1.proc with nodes := b1.proc.nodes ++ [node] } }, n2)
   else (b1, n2)
 
 /-- `Out()`: end event, link, store, hand out the process, reset the builder (`NewProcessBuilder` again) -/
@@ -156,16 +163,16 @@ def outPB (o : Nat → Nat) (n : Nat) (b : PB) : Proc × PB × Nat :=
   (p, b2, n2)
 
 /-- a whole `AddActivity` script on one builder -/
-def addAll (o : Nat → Nat) : Nat → PB → List (Kind × Option Nat) → PB × Nat
+def addAll (st : Kind → Bool) (o : Nat → Nat) : Nat → PB → List (Kind × Option Nat) → PB × Nat
   | n, b, [] => (b, n)
   | n, b, (k, pre) :: rest =>
-    let (b1, n1) := addActivity o n b k pre
-    addAll o n1 b1 rest
+    let (b1, n1) := addActivity st o n b k pre
+    addAll st o n1 b1 rest
 
 /-- `NewProcessBuilder(); AddActivity…; Out()` starting at call counter `n` -/
-def buildProcess (o : Nat → Nat) (n : Nat) (acts : List (Kind × Option Nat)) : Proc × Nat :=
+def buildProcess (st : Kind → Bool) (o : Nat → Nat) (n : Nat) (acts : List (Kind × Option Nat)) : Proc × Nat :=
   let (b, n1) := newPB o n
-  let (b2, n2) := addAll o n1 b acts
+  let (b2, n2) := addAll st o n1 b acts
   let (p, _, n3) := outPB o n2 b2
   (p, n3)
 
@@ -447,9 +454,9 @@ def World.start (o : Nat → Nat) : World :=
   let (b, n2) := newPB o n1
   { n := n2, db := d, pb := b, result := none }
 
-def World.step (o : Nat → Nat) (w : World) : Op → World
+def World.step (st : Kind → Bool) (o : Nat → Nat) (w : World) : Op → World
   | .newpb => let (b, n) := newPB o w.n; { w with pb := b, n := n }
-  | .act k pre => let (b, n) := addActivity o w.n w.pb k pre; { w with pb := b, n := n }
+  | .act k pre => let (b, n) := addActivity st o w.n w.pb k pre; { w with pb := b, n := n }
   | .out =>
     let (p, b, n1) := outPB o w.n w.pb
     let (d, n2) := addProcess o n1 w.db p
@@ -457,7 +464,8 @@ def World.step (o : Nat → Nat) (w : World) : Op → World
   | .layout cfg => let (d, n) := autoLayout o w.n cfg w.db; { w with db := d, n := n }
   | .dbout => let (d, n) := newDB o w.n; { w with result := some w.db, db := d, n := n }
 
-def World.run (o : Nat → Nat) (ops : List Op) : World := ops.foldl (World.step o) (World.start o)
+def World.run (st : Kind → Bool) (o : Nat → Nat) (ops : List Op) : World :=
+  ops.foldl (World.step st o) (World.start o)
 
 /-! ### the C19 predicates, executable (the driver evaluates the same definitions on the implementation's output) -/
 
